@@ -310,9 +310,17 @@ OnlyDocumentedErrors ==
 \* the savorize entries between two constructor calls are exactly the chains
 \* of the classes nodes were recognised as (checked on the history variable
 \* by the replay); at model level: every logged class defines the hook
-HooksOnlyOfDefiningClasses ==
+HooksOfDefiningOnly ==
     \A i \in DOMAIN log : log[i][1] = "sav" =>
         log[i][2] \in ClassNames /\ Cls(log[i][2]).hassav /\ IsReg(log[i][2])
+\* ... and no class's hook occurs twice in the chain of any class, ancestors
+\* come before descendants
+HookChainsWellFormed ==
+    \A c \in ClassNames :
+        LET ch == SavChain(c) IN
+        /\ \A i, j \in DOMAIN ch : i # j => ch[i] # ch[j]
+        /\ \A i, j \in DOMAIN ch : i < j => ~ IsSubclass(ch[i], ch[j]) \/ ch[i] = ch[j]
+HooksOnlyOfDefiningClasses == HooksOfDefiningOnly /\ HookChainsWellFormed
 
 \* C17 (weak claim): a RecognitionError for a parseable document cites at
 \* least one node, and only nodes of the document
